@@ -135,6 +135,41 @@ def arch_table_case(arch):
     return {"nontrivial": True}
 
 
+def filesystem_case(c):
+    """parsing a name is a function of the string: what the file system holds at that path (nothing, a file, a link into a
+    pool with other names) has no say"""
+    import os
+    import shutil
+    import tempfile
+    from productmd.common import parse_nvra
+    c = dict(c, prefix=c["prefix"] if c["prefix"] and not c["prefix"].startswith("/") and ":" not in c["prefix"] and ".." not in c["prefix"] else "Packages/g/")
+    s = assemble(c)
+    want = {"name": c["name"], "epoch": c["epoch"] or 0, "version": c["version"], "release": c["release"], "arch": c["arch"]}
+    tmp = tempfile.mkdtemp(prefix="c13-")
+    here = os.getcwd()
+    try:
+        os.chdir(tmp)
+        os.makedirs("pool")
+        with open("pool/other-name-9.9-9.el9.noarch.rpm", "w") as fo:
+            fo.write("x")
+        os.makedirs(os.path.dirname(os.path.normpath(s)) or ".", exist_ok=True)
+        for kind in ("absent", "file", "link"):
+            target = os.path.normpath(s)
+            if kind == "file":
+                with open(target, "w") as fo:
+                    fo.write("x")
+            elif kind == "link":
+                os.unlink(target)
+                os.symlink(os.path.relpath("pool/other-name-9.9-9.el9.noarch.rpm", os.path.dirname(target) or "."), target)
+            for spelling in (s, os.path.join(tmp, os.path.normpath(s))):
+                got = must("parse", parse_nvra, spelling)
+                check(got == want, "answer-depends-on-file-system", lambda: "parse_nvra(%r) = %r with %s at that path, built from %r" % (spelling, got, kind, want))
+    finally:
+        os.chdir(here)
+        shutil.rmtree(tmp, ignore_errors=True)
+    return {"nontrivial": True, "labels": ["rpm-suffix" if c["rpm"] else "bare"]}
+
+
 NEW_ARCHES = ["e2k", "riscv64gc", "wasm32", "loongarch32", "x86_64_v3", "arm64e"]
 
 
@@ -165,8 +200,9 @@ def run(ctx):
     ctx.forall("parse", case_strategy, parse_case, ctx.n(6000, 320000))
     ctx.forall("rpms-key", case_strategy, rpms_key_case, ctx.n(1500, 60000))
     ctx.sweep("arch-table", sorted(set(productmd.common.RPM_ARCHES) | set(gen.RPM_ARCHES)), arch_table_case, exhaustive=True)
+    ctx.forall("file-system", case_strategy, filesystem_case, ctx.n(240, 4800))
     ctx.sweep("arch-table-extended", NEW_ARCHES, extended_table_case, exhaustive=True)
     ctx.sweep("small-alphabet-sweep", sweep_cases(ctx.thorough), sweep_one, exhaustive=True)
 
 
-REPLAY = {"parse": parse_case, "rpms-key": rpms_key_case, "small-alphabet-sweep": sweep_one, "arch-table": arch_table_case, "arch-table-extended": extended_table_case}
+REPLAY = {"parse": parse_case, "rpms-key": rpms_key_case, "small-alphabet-sweep": sweep_one, "arch-table": arch_table_case, "arch-table-extended": extended_table_case, "file-system": filesystem_case}
